@@ -57,7 +57,7 @@ PROPS = {
     'C17': dict(
         technique='Verus contracts on lifted real functions (ap tracking, frame state) + Kani function contracts on ApplyApChange impls and builder bookkeeping; composition lemmas in Verus',
         level_text='Deductive proof of the checker side: each function that validates or propagates ap changes satisfies an iff-contract written from the property statement, for all arguments.',
-        level_note='Trusted: A0 (trace-level induction not mechanised), tools, assumed Clone specs. The solvers and the libfunc ap-change table are outside contracts; declared-vs-emitted ap movement is covered only by the bounded native path-sum over the Sierra corpus (n_c17_casm_paths), the return check by n_c17_return.',
+        level_note='Trusted: A0 (trace-level induction not mechanised), tools, assumed Clone specs. The solvers and the libfunc ap-change table are outside contracts; declared-vs-emitted ap movement is covered only by bounded native stand-ins: the path-sum over the Sierra corpus and generated boundary programs (n_c17_casm_paths), the per-libfunc table-vs-emitted comparison over the boundary universe of generic arguments (n_libfunc_sweep), trace-level call instances of compiled Cairo programs on the VM under both solvers (n_trace_corpus); the return check by n_c17_return.',
         scope='Checker side of ap-change soundness: reference shifting, ap tracking accumulation, frame-state transitions, environment merge equality, builder ap bookkeeping.',
         assumptions=[A0, A1, A3, A4],
         outside=['validate_return_properties (Metadata lookup + closure)', 'ApChange mapping inside CompiledInvocationBuilder::build (closure in zip_eq/map/collect)',
@@ -66,7 +66,7 @@ PROPS = {
     'C14': dict(
         technique='Verus overflow/index/unwrap obligations on lifted real functions + Kani bit-precise harnesses; native bounded stand-ins',
         level_text='Panic-freedom (no overflow, no out-of-range index, no failed unwrap, bounded allocation) of each listed unit for all arguments under stated preconditions.',
-        level_note='Per-unit claim, not whole-pipeline. Preconditions cite the upstream validator that establishes them. The rest of the untrusted path (ProgramRegistry, solvers, compile loop, build_* generators, type sizes) is covered only by bounded native stand-ins: known-input replay, a structured mutation space over small programs (n_c14_mutations), size-boundary programs (n_c14_type_sizes), a sweep of every generic libfunc/type id over boundary generic-argument lists through ProgramRegistry::new (n_c14_specialize), generated contracts and class mutants through the felt-serialized path into from_contract_class (n_class_gen).',
+        level_note='Per-unit claim, not whole-pipeline. Preconditions cite the upstream validator that establishes them. The rest of the untrusted path (ProgramRegistry, solvers, compile loop, build_* generators, type sizes) is covered only by bounded native stand-ins: known-input replay, a structured mutation space over small programs (n_c14_mutations), size-boundary programs (n_c14_type_sizes), a sweep of every generic libfunc/type id over boundary generic-argument lists through ProgramRegistry::new (n_c14_specialize), generated contracts and class mutants through the felt-serialized path into from_contract_class (n_class_gen), felt-level mutants of checked-in classes (n_c14_felt_mutants), one-invocation programs around every accepted libfunc declaration through both metadata solvers and compile (n_libfunc_sweep).',
         scope='Arithmetic, indexing, unwrap and allocation obligations of the units on the untrusted-Sierra path; not the whole pipeline.',
         assumptions=[A0, A1, A3, A4,
                      'A6 preconditions that cite an upstream validator (e.g. type sizes in [0, i16::MAX] from get_type_size_map) trust that validator'],
@@ -76,7 +76,7 @@ PROPS = {
     'C04': dict(
         technique='Kani function-contract proofs on the real cost/wallet/builder-step functions; Verus composition lemmas',
         level_text='Deductive proof of the checker side of gas accounting: cost price is linear with the published table, the wallet update is exact and rejects negatives, merges require equal wallets, builder step counting is exact.',
-        level_note='Trusted: A0, tools. Bounded Kani units: wallet key universe (2 tokens), builder var maps (<= 2 vars). Outside contracts and covered only by bounded native stand-ins (never counted as proved): the per-libfunc cost table vs emitted code (n_c04_casm_steps, Sierra corpus), gas metadata validation (n_c04_metadata), the caller-side entry cost and run-time price table of the runner (n_c04_entry_cost), the entry-point cost check of contract classes on generated contracts with an unpaid builtin use (n_class_gen). The gas solvers are outside.',
+        level_note='Trusted: A0, tools. Bounded Kani units: wallet key universe (2 tokens), builder var maps (<= 2 vars). Outside contracts and covered only by bounded native stand-ins (never counted as proved): the per-libfunc cost table vs emitted code (n_c04_casm_steps, Sierra corpus), gas metadata validation (n_c04_metadata), the caller-side entry cost and run-time price table of the runner (n_c04_entry_cost), the entry-point cost check of contract classes on generated contracts with an unpaid builtin use (n_class_gen), the per-libfunc cost-vs-emitted-steps comparison over the boundary universe (n_libfunc_sweep), and the property's own inequality on VM runs of compiled Cairo programs under both solvers (n_trace_corpus). The gas solvers are outside.',
         scope='Checker side of gas soundness (DESIGN.md 4/C04).',
         assumptions=[A0, A1, A3, A4],
         outside=['gas solvers (compute_costs.rs, eq-solver)', 'core_libfunc_cost_base.rs tables', "the 'Wrong costs for' comparison inside build_from_casm_builder_ex", 'runner gas accounting'],
